@@ -145,3 +145,71 @@ def u_b_twoway(ctx):
     if ctx.tier == "thorough":
         shapes += [(3, (3,), 1, 1, 2), (2, (2, 2), 1, 0, 1), (3, (1, 2), 2, inf, None)]
     modeb.run_shapes(ctx, "twoway", shapes, body, timeout_ms=30000)
+
+
+UCP = "pybrops/breed/prot/sel/prob/UsefulnessCriterionSelectionProblem.py"
+
+
+UC_UNIT = dict(name="B[usefulness criterion: _calc_uc == expected-parental-contribution mean + intensity * sqrt(variance of that cross)]",
+               mode="B", bounded=True, targets=[UCP + ":UsefulnessCriterionSelectionProblemMixin._calc_uc"],
+               note="bounded(shape): <=3 taxa, <=2 traits, 2-, 3- and 4-parent cross maps with the factory's own (possibly unequal) "
+                    "expected parental genome contributions; breeding values, variances, contributions and the intensity symbolic")
+
+
+def u_b_uc(ctx):
+    ctx.trust(*lemma.TRUST)
+
+    def body(e, shape, tag):
+        from pybrops.breed.prot.sel.prob.UsefulnessCriterionSelectionProblem import UsefulnessCriterionSelectionProblemMixin as M
+        n, t, npar, xmap = shape
+        bv = barr.fresh("bv", (n, t), "float64")
+        var = barr.fresh("v", (n,) * npar + (t,), "float64", 0, None)
+        epgc = [sym.fresh_real("epgc%d" % k) for k in range(npar)]
+        inten = sym.fresh_real("intensity")
+        calls = []
+        tok = dict(pg=object(), fn=object())
+
+        class BVO:
+            ntrait = t
+
+            def unscale(self):
+                return bv
+
+        class VO:
+            mat = var
+        VO.epgc = tuple(epgc)
+
+        class GM:
+            def gebv(self, pg):
+                calls.append(("gebv", pg))
+                return BVO()
+        gm = GM()
+
+        class F:
+            def from_gmod(self, **kw):
+                calls.append(("from_gmod", kw))
+                return VO()
+        xm = numpy.array(xmap, dtype=int).reshape(-1, npar)
+        uc = M._calc_uc(F(), 11, 13, 2, tok["fn"], inten, tok["pg"], gm, xm)
+        e.prove(tag + ":shape", tuple(uc.shape) == (len(xm), t))
+        fg = [c for c in calls if c[0] == "from_gmod"]
+        e.prove(tag + ":variance-matrix-requested-for-this-model-population-and-design",
+                len(fg) == 1 and fg[0][1].get("gmod") is gm and fg[0][1].get("pgmat") is tok["pg"] and fg[0][1].get("ncross") == 11
+                and fg[0][1].get("nprogeny") == 13 and fg[0][1].get("nself") == 2 and fg[0][1].get("gmapfn") is tok["fn"]
+                and ("gebv", tok["pg"]) in calls)
+        for i, cc in enumerate(xm):
+            for k in range(t):
+                mean = sum((epgc[a].t * R(bv[int(cc[a]), k]) for a in range(npar)), z3.RealVal(0))
+                v = R(var[tuple(int(x) for x in cc) + (k,)])
+                # uc = mean + intensity * sqrt(v): stated without sqrt as (uc - mean)^2 == intensity^2 * v with the sign of intensity
+                d = R(uc[i, k]) - mean
+                e.prove(tag + ":uc[%d,%d]==sum_k epgc_k*bv[parent_k] + intensity*sqrt(var[cross])" % (i, k),
+                        z3.And(d * d == inten.t * inten.t * v, z3.Implies(inten.t >= 0, d >= 0), z3.Implies(inten.t <= 0, d <= 0)))
+        e.prove(tag + ":canary:midparent-mean", z3.And(*[R(uc[0, k]) * npar == sum((R(bv[int(xm[0][a]), k]) for a in range(npar)), z3.RealVal(0))
+                                                         for k in range(t)]), expect="fail", timeout_ms=2000)
+        return "ok"
+    shapes = [(2, 1, 2, ((0, 1), (1, 1))), (3, 1, 3, ((0, 1, 2), (2, 2, 0))), (3, 2, 2, ((2, 0),)), (2, 1, 4, ((0, 1, 1, 0),))]
+    modeb.run_shapes(ctx, "uc", shapes, body, timeout_ms=20000)
+
+
+unit(P, UC_UNIT["name"], UC_UNIT["mode"], bounded=True, targets=UC_UNIT["targets"], note=UC_UNIT["note"])(u_b_uc)
